@@ -217,10 +217,25 @@ impl Drop for Worker {
     }
 }
 
-/// Wall-clock allowance for one decode. The slowest legitimate decode of the check (a mebibyte of
-/// G2 elements) takes about a second on an idle core; the allowance is there to tell "slow" from
-/// "never returns", not to measure.
-const DECODE_DEADLINE_S: u64 = 90;
+/// CPU-time allowance for one decode, measured on the worker process (`/proc/<pid>/stat`), so that
+/// the verdict does not depend on how busy the machine is. The slowest legitimate decode of the
+/// check (a mebibyte of G2 elements) takes about a second of CPU; the allowance is there to tell
+/// "slow" from "does not return", not to measure.
+const DECODE_DEADLINE_S: u64 = 25;
+/// Wall-clock fallback for a decode that blocks without burning CPU.
+const DECODE_WALL_DEADLINE_S: u64 = 900;
+
+/// user + system CPU time of a process in clock ticks (100 per second on Linux).
+fn cpu_ticks(pid: u32) -> Option<u64> {
+    let st = std::fs::read_to_string(format!("/proc/{}/stat", pid)).ok()?;
+    // the command name (field 2) may contain spaces: fields are counted after the last ')'
+    let rest = &st[st.rfind(')')? + 1..];
+    let f: Vec<&str> = rest.split_whitespace().collect();
+    // rest starts at field 3: utime is field 14, stime field 15
+    let ut: u64 = f.get(11)?.parse().ok()?;
+    let stt: u64 = f.get(12)?.parse().ok()?;
+    Some(ut + stt)
+}
 
 impl Worker {
     fn spawn() -> Worker {
@@ -240,17 +255,37 @@ impl Worker {
         let pid = child.id();
         {
             let (deadline, timed_out, shutdown) = (deadline.clone(), timed_out.clone(), shutdown.clone());
-            std::thread::spawn(move || loop {
+            std::thread::spawn(move || {
+              // CPU ticks of the worker when the request in flight was first seen
+              let mut seen: Option<(std::time::Instant, u64)> = None;
+              loop {
                 std::thread::sleep(std::time::Duration::from_millis(250));
                 if shutdown.load(std::sync::atomic::Ordering::SeqCst) {
                     return;
                 }
-                let due = matches!(*deadline.lock().unwrap_or_else(|e| e.into_inner()), Some(d) if std::time::Instant::now() > d);
+                let cur = *deadline.lock().unwrap_or_else(|e| e.into_inner());
+                let due = match cur {
+                    None => {
+                        seen = None;
+                        false
+                    }
+                    Some(d) => {
+                        let now_ticks = cpu_ticks(pid).unwrap_or(0);
+                        match seen {
+                            Some((dd, t0)) if dd == d => now_ticks.saturating_sub(t0) > DECODE_DEADLINE_S * 100 || std::time::Instant::now() > d,
+                            _ => {
+                                seen = Some((d, now_ticks));
+                                false
+                            }
+                        }
+                    }
+                };
                 if due {
                     timed_out.store(true, std::sync::atomic::Ordering::SeqCst);
                     let _ = Command::new("kill").arg("-9").arg(pid.to_string()).status();
                     return;
                 }
+              }
             });
         }
         Worker { child, stdin, stdout, deadline, timed_out, shutdown }
@@ -302,7 +337,7 @@ pub fn decode_in_worker_mode(ty: usize, bytes: &[u8], script: Option<&[ReadOp]>,
                 }
             }
         }
-        *wk.deadline.lock().unwrap_or_else(|e| e.into_inner()) = Some(std::time::Instant::now() + std::time::Duration::from_secs(DECODE_DEADLINE_S));
+        *wk.deadline.lock().unwrap_or_else(|e| e.into_inner()) = Some(std::time::Instant::now() + std::time::Duration::from_secs(DECODE_WALL_DEADLINE_S));
         let sent = wk.stdin.write_all(&req).is_ok() && wk.stdin.flush().is_ok();
         let mut ok = None;
         if sent {
@@ -422,7 +457,7 @@ fn bigvec(o: &mut Outcome, case: &Value) {
         }
         Decoded::Panic { loc, msg } => o.violate("decode-panic", &loc, format!("decoder panicked on {} valid elements behind the length prefix {}: {}", count, prefix, msg)),
         Decoded::Died { how } => o.violate("decode-abort", &site, format!("worker process died on {} valid elements behind the length prefix {} ({})", count, prefix, how)),
-        Decoded::Hung => o.violate("decode-hang", &site, format!("no answer from the decoder within {} s: the decode does not return", DECODE_DEADLINE_S)),
+        Decoded::Hung => o.violate("decode-hang", &site, format!("the decoder used more than {} s of CPU time on this input without answering: the decode does not return", DECODE_DEADLINE_S)),
     }
     o.nontrivial = prefix != count;
     o.shape = mix(&[0xB16, ty as u64, count, prefix]);
@@ -890,7 +925,7 @@ impl Prop for C16 {
                 }
                 Decoded::Panic { loc, msg } => o.violate("decode-panic", &loc, format!("decoder panicked while decoding JSON as {} with fault {}: {}", s.ty, m, msg)),
                 Decoded::Died { how } => o.violate("decode-abort", &site, format!("worker process died while decoding JSON ({})", how)),
-                Decoded::Hung => o.violate("decode-hang", &site, format!("no answer from the decoder within {} s: the decode does not return", DECODE_DEADLINE_S)),
+                Decoded::Hung => o.violate("decode-hang", &site, format!("the decoder used more than {} s of CPU time on this input without answering: the decode does not return", DECODE_DEADLINE_S)),
             }
             o.nontrivial = m["k"] != "none";
             o.shape = mix(&[ty as u64, 0x150, case["sample"].as_u64().unwrap_or(0), case["stream"].as_u64().unwrap_or(0), crate::hash_str(&m.to_string())]);
@@ -953,7 +988,7 @@ impl Prop for C16 {
                 );
             }
             Decoded::Hung => {
-                o.violate("decode-hang", &site, format!("no answer from the decoder within {} s: the decode does not return", DECODE_DEADLINE_S));
+                o.violate("decode-hang", &site, format!("the decoder used more than {} s of CPU time on this input without answering: the decode does not return", DECODE_DEADLINE_S));
             }
         }
         o.nontrivial = m["k"].as_str().unwrap_or("none") != "none" || script.is_some();
